@@ -50,7 +50,7 @@ class Gen:
         self.tables = tables
         self.alias_n = 0
         self.o = dict(subqueries=True, joins=True, groups=True, setops=True, ctes=True, order=True,
-                      case=True, inlist=True, lateral=False, semi=False, max_depth=3)
+                      case=True, inlist=True, lateral=False, semi=False, max_depth=3, join_bias=False)
         if opts:
             self.o.update(opts)
         self.ctes = []     # (name, Q) available for FROM
@@ -235,6 +235,7 @@ class Gen:
         k = r.below(10)
         if k < 2 and self.o["subqueries"] and depth >= 2:
             sub = self.select(outer, depth - 1, want=None, classes=classes, plain=r.chance(60), corr=False)
+            self._last_est = 40
             return "(%s) AS %s" % (sub.sql, al), "(fq %s)" % sub.sx, list(zip(sub.names, sub.types)), al
         if k < 4 and self.ctes:
             # each CTE is referenced at most once per statement in this stream: two references to one CTE
@@ -242,22 +243,41 @@ class Gen:
             name, sub = self.ctes.pop(r.below(len(self.ctes)))
             classes.add("cte")
             classes |= sub.classes
+            self._last_est = 40
             return "%s AS %s" % (name, al), "(fq %s)" % sub.sx, list(zip(sub.names, sub.types)), al
         ti = r.below(len(self.tables))
-        name, cols, _ = self.tables[ti]
+        name, cols, rows_ = self.tables[ti]
+        self._last_est = max(1, len(rows_))
         return "%s AS %s" % (name, al), "(fq (table %d))" % ti, list(cols), al
 
     def from_clause(self, outer, depth, classes):
         """returns (sql, sx, Scope)"""
         r = self.rng
         n = 1 if not self.o["joins"] else r.choice([1, 1, 2, 2, 3])
+        jb = self.o["join_bias"]
+        if jb and self.o["joins"]:
+            n = r.choice([2, 3, 3, 4])   # what the join-reorder rule works on
         sql, sx, cols, al = self.from_item(outer, depth, classes)
+        est = self._last_est
         scope_cols = [Col("%s.%s" % (al, c), t, i) for i, (c, t) in enumerate(cols)]
         for _ in range(n - 1):
+            # the reference evaluation materialises the product before filtering: bound its size
             rsql, rsx, rcols, ral = self.from_item(outer, depth, classes)
+            if est * self._last_est > 30000:
+                # too big: use a VALUES-free fallback, the smallest base table
+                ti = min(range(len(self.tables)), key=lambda i: len(self.tables[i][2]))
+                if est * max(1, len(self.tables[ti][2])) > 30000:
+                    break
+                name, tcols, rows_ = self.tables[ti]
+                ral = self.alias()
+                rsql, rsx, rcols = "%s AS %s" % (name, ral), "(fq (table %d))" % ti, list(tcols)
+                self._last_est = max(1, len(rows_))
+            est *= self._last_est
             la = len(scope_cols)
             rscope = [Col("%s.%s" % (ral, c), t, la + i) for i, (c, t) in enumerate(rcols)]
             kind = r.choice(["cross", "inner", "inner", "left", "left", "right", "comma"])
+            if jb:
+                kind = r.choice(["cross", "inner", "inner", "inner", "inner", "left", "comma"])
             if kind == "comma" and _ != n - 2:
                 kind = "cross"   # `a, b JOIN c ON ...` binds as `a, (b JOIN c ...)`: keep commas last
             both = Scope(scope_cols + rscope)
@@ -282,10 +302,12 @@ class Gen:
             if r.chance(50):
                 a, b = b, a
             conj.append(("(%s = %s)" % (a.sql, b.sql), "(cmp eq (col 0 %d) (col 0 %d))" % (a.idx, b.idx)))
-            if r.chance(25) and len(pairs) > 1:
+            if r.chance(60 if self.o["join_bias"] else 25) and len(pairs) > 1:
                 a, b = r.choice(pairs)
-                op = r.choice(["eq", "lt", "ge", "ne"])
-                sym = {"eq": "=", "lt": "<", "ge": ">=", "ne": "<>"}[op]
+                if r.chance(50):
+                    a, b = b, a
+                op = r.choice(["eq", "lt", "ge", "ne", "lt", "gt", "le"])
+                sym = {"eq": "=", "lt": "<", "ge": ">=", "ne": "<>", "gt": ">", "le": "<="}[op]
                 conj.append(("(%s %s %s)" % (a.sql, sym, b.sql), "(cmp %s (col 0 %d) (col 0 %d))" % (op, a.idx, b.idx)))
         if not conj or r.chance(25):
             side = Scope(lcols) if r.chance(50) else Scope(rcols)
@@ -317,6 +339,22 @@ class Gen:
         if r.chance(65):
             w = self.expr(scopes, "bool", min(depth, 2), classes, True, corr)
             wsql, wsx = w[0], w[1]
+        if self.o["join_bias"] and r.chance(60):
+            # column-to-column comparisons in WHERE: the join-reorder rule turns them into join conditions
+            cs = [c for c in scope.cols if c.ty in ("i32", "i64", "text")]
+            pairs = [(a, b) for a in cs for b in cs if a.ty == b.ty and a.idx != b.idx]
+            extra = []
+            for _ in range(1 + r.below(2)):
+                if pairs:
+                    a, b = r.choice(pairs)
+                    op = r.choice(["eq", "eq", "lt", "gt", "le", "ge", "ne"])
+                    sym = {"eq": "=", "lt": "<", "ge": ">=", "ne": "<>", "gt": ">", "le": "<="}[op]
+                    extra.append(("(%s %s %s)" % (a.sql, sym, b.sql), "(cmp %s (col 0 %d) (col 0 %d))" % (op, a.idx, b.idx)))
+            for e in extra:
+                if wsql is None:
+                    wsql, wsx = e
+                else:
+                    wsql, wsx = "(%s AND %s)" % (wsql, e[0]), "(and %s %s)" % (wsx, e[1])
         grouped = force_global_agg or (self.o["groups"] and not plain and r.chance(35))
         names, types, sel_sql, sel_sx = [], [], [], []
         gsx, hsql, hsx, gsql = "-", None, "-", None
